@@ -332,8 +332,6 @@ def one_off_default(ctx):
     one_case(ctx, (copy.deepcopy(base_cfg), None, ["DSC"], noflags), "oneoff.global_metrics")
     one_case(ctx, (copy.deepcopy(base_cfg), [{"name": "a", "labels": [1], "merge": False, "single": False}, {"name": "b", "labels": [2, 3], "merge": False, "single": False}],
                    [], noflags), "oneoff.groups")
-
-
 def saved_by_name(ctx):
     """several evaluators with different settings saved *by name* (the by-name directory redirected to a scratch directory),
     the names sharing prefixes, carrying dots, version numbers and the extension; loading each name gives back what was saved
@@ -381,8 +379,50 @@ def saved_by_name(ctx):
                         os.remove(os.path.join(dp, f))
 
 
+def int_named_groups(ctx):
+    """class groups keyed by integer ids — in Python (`{1: LabelGroup(...), 26: ...}`) and in a YAML file whose group keys are plain
+    numbers: the library names such groups '1', '26'; both forms give the same object as the string-named definition, and it round-trips"""
+    import re
+    spec = [{"name": "1", "labels": [1], "merge": False, "single": False}, {"name": "5", "labels": [2, 3], "merge": True, "single": False},
+            {"name": "26", "labels": [4], "merge": False, "single": False}]
+    inp = {"int_named_groups": spec}
+    ctx.case(inp, True)
+    ctx.count("groups_named_by_integers")
+    d = VERIF / ".work" / f"c19i_{os.getpid()}"
+    d.mkdir(parents=True, exist_ok=True)
+    try:
+        with quiet():
+            want = impl.mk_groups(spec)
+            p = str(d / "g.yaml")
+            want.save_to_config(p)
+            text = open(p).read()
+            numeric = re.sub(r"'(\d+)':", r"\1:", text)
+        for what, make in (("defined in Python with integer keys", lambda: impl.mk_groups([dict(spec[0], int_keys=True)] + spec[1:])),
+                           ("loaded from a YAML file whose group names are plain numbers", lambda: (open(p, "w").write(numeric), impl.SegmentationClassGroups.load_from_config(p))[1])):
+            if what.startswith("loaded") and numeric == text:
+                ctx.count("yaml_keys_not_quoted_by_writer")
+                continue
+            try:
+                with quiet():
+                    got = make()
+            except Exception as e:
+                ctx.violation(f"C19 violated: class groups {what} cannot be built: {type(e).__name__}: {str(e)[:160]}", inp, key={"kind": "int-named-groups"})
+                continue
+            if settings(got) != settings(want):
+                ctx.violation(f"C19 violated: class groups {what} differ from the same groups named by strings", inp, key={"kind": "int-named-groups"})
+                continue
+            with quiet():
+                got.save_to_config(p)
+                back = impl.SegmentationClassGroups.load_from_config(p)
+            if settings(back) != settings(want):
+                ctx.violation(f"C19 violated: class groups {what} do not survive saving and loading", inp, key={"kind": "int-named-groups"})
+    finally:
+        shutil.rmtree(d, ignore_errors=True)
+
+
 def run(ctx):
     shipped(ctx)
+    int_named_groups(ctx)
     saved_by_name(ctx)
     one_off_default(ctx)
     for i in range(ctx.scale(60, 700)):
@@ -399,6 +439,8 @@ def replay(ctx, rec):
     i = rec["input"]
     if "cfg" in i:
         one_case(ctx, (i["cfg"], i["groups"], i["global_metrics"], i["flags"]), "replay")
+    elif "int_named_groups" in i:
+        int_named_groups(ctx)
     elif "saved_by_name" in i:
         saved_by_name(ctx)
     else:
